@@ -16,7 +16,7 @@ COMMON_DROPS = [
 ]
 
 COMMON_TRUST = [
-    "CBMC 6.11.0 (goto-cc C semantics = GCC x86-64 LP64: signed char, two's complement, arithmetic >>), SAT back end MiniSat unless stated",
+    "CBMC 6.11.0 (goto-cc C semantics = GCC x86-64 LP64: signed char, two's complement, arithmetic >>), SAT back end CaDiCaL (cbmc --sat-solver cadical) unless a job names z3",
     "cxx2c rewrite rules in /verif/vlib/extract.py and the kernel spec (surface syntax only; validated by native fidelity/replay builds, not proved)",
     "prelude type models in /verif/prelude (struct layouts field-for-field what the extracted code reads)",
 ]
